@@ -34,15 +34,20 @@ SEP = '|'
 
 TIERS = {
     'quick': dict(
-        closures=[('main', dict(
-            Templates={"for0", "for1", "forseq", "let1", "for2", "nest", "nestseq", "nestx", "nestxr",
-                       "rec", "recr", "fact1", "pvar", "pstat", "ref1", "shadow"},
-            MaxN=3, MaxEvents=3, MaxMakers=1, PartialIn={"for2", "for1", "ref1"}, RefIn={"for1"},
-            TwoHoles=False))],
+        closures=[
+            ('main', dict(
+                Templates={"for0", "for1", "forseq", "let1", "for2", "nest", "nestseq", "nestx", "nestxr",
+                           "rec", "recr", "fact1", "pvar", "pstat", "ref1", "shadow"},
+                MaxN=3, MaxEvents=3, MaxMakers=1, PartialIn={"for2", "for1", "ref1"}, RefIn={"for1"},
+                TwoHoles=False)),
+            # two partial applications of function items made by one function expression
+            ('partials', dict(
+                Templates={"for2"}, MaxN=2, MaxEvents=4, MaxMakers=2, PartialIn={"for2"}, RefIn={"none"},
+                TwoHoles=False)),
+        ],
         hof=[('d2', dict(MaxDepth=2, MaxLen=3, UniverseName='u4', Big=True))],
     ),
     'thorough': dict(
-        hof=[('d3', dict(MaxDepth=3, MaxLen=3, UniverseName='u4', Big=True))],
         closures=[
             ('main', dict(
                 Templates={"for0", "for1", "forseq", "let1", "nest", "nestseq", "nestx", "nestxr",
@@ -52,7 +57,12 @@ TIERS = {
                 Templates={"for2", "ref1", "for1"},
                 MaxN=3, MaxEvents=4, MaxMakers=2, PartialIn={"for2", "ref1", "for1"}, RefIn={"for1", "ref1"},
                 TwoHoles=True)),
+            # a named reference, two partial applications of it, one call
+            ('refs', dict(
+                Templates={"for0"}, MaxN=1, MaxEvents=4, MaxMakers=3, PartialIn={"for0"}, RefIn={"for0"},
+                TwoHoles=False)),
         ],
+        hof=[('d3', dict(MaxDepth=3, MaxLen=3, UniverseName='u4', Big=True))],
     ),
 }
 
@@ -285,47 +295,46 @@ def run_python_api(tpl: dict, n: int, events, version: str):
 
 
 def hazards(tpl_id: str, tpl: dict, n: int, events, j: int) -> dict:
-    """structural facts about call event j (dumb projections of the history)"""
+    """structural facts about call event j: dumb projections of the history, no semantics.
+    `_items` owner = what a shallow token copy shares its argument list with: every function item made
+    by one inline function expression is the same token ('site'); a named reference is its own."""
     e = events[j]
-    # root: follow partial chains back to a created handle or a named reference
-    h = e['h']
-    chain = []          # maker events from the callee back to the root
-    nh = n
-    makers = {}
+    makers, nh = {}, n
     for q, x in enumerate(events):
         if x['a'] != 'call':
             nh += 1
             makers[nh] = (q, x)
-    while h > n and makers[h][1]['a'] == 'partial':
-        chain.append(makers[h])
-        h = makers[h][1]['h']
-    root_created = h <= n
-    root_ref = (h > n)
-    callee_kind = ('partial' if chain else ('named' if root_ref else tpl['kind']))
-    stale = root_created and h < n and tpl['kind'] in ('inline', 'partial-inline', 'partial-named')
+
+    def root_of(h):
+        chain = []
+        while h > n and makers[h][1]['a'] == 'partial':
+            chain.append(makers[h][0])
+            h = makers[h][1]['h']
+        return h, chain
+
+    def owner(r):
+        return 'site' if (r <= n and tpl['kind'] == 'inline') else ('h', r)
+
+    root, chain = root_of(e['h'])
+    named_root = root > n or tpl['kind'] == 'named'
+    callee_kind = 'partial' if chain else ('named' if named_root else tpl['kind'])
+    stale = root <= n and root < n and tpl['kind'] in ('inline', 'partial-inline', 'partial-named')
     slots = False
     if chain:
-        made_at = chain[-1][0]          # the partial closest to the root... any partial of the chain
-        for q0, _ in chain:
-            # another Partial on a handle with the same root, or a plain call of a named root, after
-            # this partial was made and before this call
-            for q in range(q0 + 1, j):
-                x = events[q]
-                hx = x['h'] if 'h' in x else None
-                if hx is None:
-                    continue
-                while hx > n and makers[hx][1]['a'] == 'partial':
-                    hx = makers[hx][1]['h']
-                same_root = (hx <= n and root_created) or (hx == h)
-                if x['a'] == 'partial' and same_root:
-                    slots = True
-                if x['a'] == 'call' and x['h'] == hx and root_ref and hx == h:
-                    slots = True
-        del made_at
+        made = min(chain)        # the first partial application on the way from the root
+        for q in range(made + 1, j):
+            x = events[q]
+            if x['a'] == 'ref':
+                continue
+            r2, chain2 = root_of(x['h'])
+            if owner(r2) != owner(root):
+                continue
+            if x['a'] == 'partial' or (x['a'] == 'call' and not chain2 and named_root):
+                slots = True     # another partial application refilled / a plain call cleared the shared list
     earlier = [x['h'] for x in events[:j] if x['a'] == 'call']
     order = 'first' if not earlier else ('repeat' if all(x == e['h'] for x in earlier) else 'after_other')
-    return dict(template=tpl_id, scope=tpl['scope'], kind=callee_kind, same_site=n,
-                callee_last=(h == n) if root_created else None,
+    return dict(part='closures', template=tpl_id, scope=tpl['scope'], kind=callee_kind, same_site=n,
+                callee_last=(root == n) if root <= n else None,
                 stale_capture=bool(stale), slots_shared=bool(slots),
                 lazy_fixed=tpl['kind'] in ('partial-inline', 'partial-named'),
                 param_collision=bool(tpl['collision']), order=order)
@@ -354,7 +363,8 @@ def closures_worker(job):
                         feat = hazards(tpl_id, tpl, n, events, j)
                         feat.update(binding=binding, outcome='value', as_implemented=(obs[q] == imp[q]))
                         fails.append((feat, dict(part='closures', text=text, template=tpl_id, n=n, events=events,
-                                                 binding=binding, parser=version, call=q), exp[q], obs[q]))
+                                                 binding=binding, parser=version, call=q,
+                                                 tpl=(tpl if binding == 'python' else None)), exp[q], obs[q]))
             else:
                 # the program died: attribute it to the first call the implementation-shaped model poisons,
                 # else to the first call
@@ -365,7 +375,8 @@ def closures_worker(job):
                 predicted = bool(dead) and imp[q][0][1] == code
                 feat.update(binding=binding, outcome=f'{out[0]}:{code}', as_implemented=predicted)
                 fails.append((feat, dict(part='closures', text=text, template=tpl_id, n=n, events=events,
-                                         binding=binding, parser=version, call=q), exp[q], list(out)))
+                                         binding=binding, parser=version, call=q,
+                                         tpl=(tpl if binding == 'python' else None)), exp[q], list(out)))
     return n_eval, n_calls, fails
 
 
@@ -381,7 +392,7 @@ def direct_worker(job):
             n_eval += 1
             obs = project(out[1]) if out[0] == 'ok' else None
             if obs != exp:
-                feat = dict(template=tpl_id, scope=tpl['scope'], kind=tpl['kind'], same_site=1, callee_last=True,
+                feat = dict(part='closures', template=tpl_id, scope=tpl['scope'], kind=tpl['kind'], same_site=1, callee_last=True,
                             stale_capture=False, slots_shared=False,
                             lazy_fixed=False, param_collision=bool(tpl['collision']), order='first',
                             binding='direct', outcome='value' if out[0] == 'ok' else f'{out[0]}:{out[1]}',
@@ -419,9 +430,8 @@ def run_closures(chk: core.Check, name: str, consts: dict) -> None:
     acts = {}
     for _, _, a, _ in g.edges:
         acts[a] = acts.get(a, 0) + 1
-    for a in ('Create', 'EndScope', 'CallLater', 'Partial', 'NamedRef'):
-        if not acts.get(a):
-            raise tla.MachineryError(f'Closures/{name}: action {a} never fired (vacuous)')
+    for a, c in acts.items():
+        FIRED[a] = FIRED.get(a, 0) + c
     leaves = []
     for sid, st in g.states.items():
         if out[sid] or st['phase'] != 'call' or not st['log']:
@@ -433,9 +443,9 @@ def run_closures(chk: core.Check, name: str, consts: dict) -> None:
     nontrivial = set()
     for tpl_id, n, ev, log, ilog in leaves:
         hs = [e['h'] for e in ev if e['a'] == 'call']
-        # non-trivial: more than one function item in play, or a function item called more than once,
-        # or a maker (partial application / named reference) in the history
-        if n > 1 or len(hs) != len(set(hs)) or any(e['a'] != 'call' for e in ev):
+        # non-trivial: more than one function item made by the function expression, or a maker
+        # (partial application / named reference) in the history
+        if n > 1 or any(e['a'] != 'call' for e in ev):
             nontrivial.add((tpl_id, n, ev))
     chk.add('distinct_nontrivial', len(nontrivial))
     for lf in leaves[:: max(1, len(leaves) // 5)][:5]:
@@ -512,7 +522,7 @@ def hof_python_api(action: str, args: tuple, src_items, ftext: str | None, zeros
             return P().get_function(name, 2)(seq, fobj, context=ctx)
         if action in ('FoldLeftA', 'FoldRightA'):
             z = zeros[args[0]]
-            zero = [] if z['k'] == 'empty' else z['v']
+            zero = [] if z['k'] == 'empty' else (list(z['ns']) if z['k'] == 'lits' else z['v'])
             return P().get_function(name, 3)(seq, zero, fobj, context=ctx)
         if action == 'PairA':
             return P().get_function(name, 3)(seq, list(args[0]), fobj, context=ctx)
@@ -565,10 +575,13 @@ def hof_worker(job):
                     root = entry['e']['k'] if entry else 'none'
                     feat = dict(part='hof', hof=HOF_NAME[action], fn=fname, fn_class=FN_CLASS.get(root, 'none'),
                                 nested_hof=bool(entry and entry['nested']), param_collision=bool(entry and entry['collision']),
+                                zero=(args[0] if action in ('FoldLeftA', 'FoldRightA') else None),
                                 style=style, src='nested' if nested else 'literal',
                                 src_len=min(len(src_items), 4), outcome='value' if out[0] == 'ok' else f'{out[0]}:{out[1]}')
-                    fails.append((feat, dict(part='hof', text=text, parser=v, style=style), exp,
-                                  obs if obs is not None else list(out)))
+                    case = dict(part='hof', text=text, parser=v, style=style)
+                    if style == 'python':
+                        case.update(action=action, args=args, src_items=src_items, ftext=ftext, zeros=zeros)
+                    fails.append((feat, case, exp, obs if obs is not None else list(out)))
     return n_eval, fails
 
 
@@ -639,32 +652,35 @@ def run_hof(chk: core.Check, name: str, consts: dict) -> None:
 
 PROCS = int(os.environ.get('VERIF_PROCS', '12'))
 DEV_PART = 'all'
+FIRED: dict = {}
+
+
+def _tup(x):
+    return tuple(_tup(y) for y in x) if isinstance(x, list) else x
 
 
 def replay(rec: dict) -> int:
     core.setup_repo_path()
     case = rec['case']
-    print('part     :', case.get('part'))
+    exp = _tup(rec['expected'])
+    print('part     :', case.get('part'), ' binding/style:', case.get('binding') or case.get('style'),
+          ' parser:', case.get('parser'))
     print('text     :', case.get('text'))
-    print('expected :', rec['expected'])
+    print('expected :', exp)
     if case.get('part') == 'closures' and case.get('binding') == 'python':
-        print('(python-API history; re-run the check to reproduce, XPath rendering shown above)')
-    out = run_xpath(case['text'], case.get('parser', '3.1'))
-    obs = project(out[1]) if out[0] == 'ok' else out
-    print('observed :', obs)
-    if case.get('part') == 'closures':
-        if out[0] == 'ok':
-            got = split_results(obs)
-            q = case['call']
-            got = got[q] if q < len(got) else None
-        else:
-            got = None
-        exp = tuple(tuple(x) for x in rec['expected'])
-        bad = got != exp
+        out = run_python_api(case['tpl'], case['n'], case['events'], case.get('parser', '3.1'))
+        got = out[1][case['call']] if out[0] == 'ok' and case['call'] < len(out[1]) else out
+    elif case.get('part') == 'hof' and case.get('style') == 'python':
+        out = hof_python_api(case['action'], _tup(case['args']), case['src_items'], case['ftext'], case['zeros'])
+        got = project(out[1]) if out[0] == 'ok' else out
     else:
-        exp = tuple(tuple(x) for x in rec['expected'])
-        bad = (out[0] != 'ok') or obs != exp
-    if bad:
+        out = run_xpath(case['text'], case.get('parser', '3.1'))
+        got = project(out[1]) if out[0] == 'ok' else out
+        if out[0] == 'ok' and case.get('part') == 'closures' and 'call' in case:
+            parts = split_results(got)
+            got = parts[case['call']] if case['call'] < len(parts) else None
+    print('observed :', got)
+    if got != exp:
         print('VIOLATION property=C16 replay=(replayed)')
         return 1
     return 0
@@ -679,8 +695,13 @@ def run(chk: core.Check) -> None:
     ]
     tier = TIERS[chk.tier]
     if DEV_PART in ('all', 'closures'):
+        FIRED.clear()
         for name, consts in tier['closures']:
             run_closures(chk, name, consts)
+        for a in ('Create', 'EndScope', 'CallLater', 'Partial', 'NamedRef'):
+            if not FIRED.get(a):
+                raise tla.MachineryError(f'Closures: action {a} never fired (vacuous)')
+        chk.coverage['closures_actions_fired'] = dict(FIRED)
     if DEV_PART in ('all', 'hof'):
         for name, consts in tier['hof']:
             run_hof(chk, name, consts)
@@ -688,7 +709,7 @@ def run(chk: core.Check) -> None:
     chk.coverage['rule'] = (
         'Closures: every leaf of the TLC forest (template x 1..3 iterations of one function expression x every '
         'sequence of CallLater/Partial/NamedRef events up to the bound) is one program, run as XPath (3.0, 3.1) and '
-        'through the Python API; non-trivial = more than one function item, a repeated call, or a maker event.  '
+        'through the Python API; non-trivial = more than one function item made by the expression, or a maker event.  '
         'HOF: every edge of the TLC graph (sequence x higher-order function x catalog function [x zero / other sequence]) '
         'is one call, rendered with the function inline, bound to a variable, through parser.get_function, and with the '
         'source sequence literal or as the nested call chain that produced it; non-trivial = non-empty source sequence.')
